@@ -3,9 +3,9 @@
 P=$1; ID=$2; TIER=${3:-quick}
 cd /repo || exit 2
 if ! git diff --quiet; then echo "/repo has uncommitted changes"; exit 2; fi
-if ! git apply --check "$P" 2>/dev/null; then
-  if git apply --3way --check "$P" 2>/dev/null; then MODE=--3way; else echo "PATCH DOES NOT APPLY: $P"; exit 3; fi
+if ! git apply --check "$P" 2>/dev/null; then MODE=--3way; fi
+if ! git apply $MODE "$P" >/dev/null 2>&1 || git diff --name-only --diff-filter=U | grep -q .; then
+  git reset -q --hard HEAD; echo "PATCH DOES NOT APPLY CLEANLY: $P"; exit 3
 fi
-git apply $MODE "$P" || exit 3
 ( cd /verif && ./check "$ID" "$TIER" -no-evidence 2>&1 | grep -v "child finished" | cut -c1-400 | head -12 )
-git -C /repo checkout -- . ; git -C /repo reset -q
+git -C /repo reset -q --hard HEAD
